@@ -11,6 +11,7 @@ require (
 	github.com/lni/vfs v0.2.1-0.20220616104132-8852fd867376
 	go.uber.org/zap v1.27.0
 	google.golang.org/grpc v1.63.2
+	google.golang.org/protobuf v1.34.1
 	pgregory.net/rapid v1.3.0
 )
 
@@ -63,7 +64,6 @@ require (
 	golang.org/x/text v0.14.0 // indirect
 	golang.org/x/time v0.5.0 // indirect
 	google.golang.org/genproto/googleapis/rpc v0.0.0-20240415180920-8c6c420018be // indirect
-	google.golang.org/protobuf v1.34.1 // indirect
 )
 
 replace github.com/jamf/regatta => /repo
